@@ -70,14 +70,17 @@ def _key_elem(e):
     return int(e)
 
 
-def _need(key, rhs_shape=None):
-    """Extent each mode must have for a write with this key."""
+def _need(key, rhs_shape=None, cur=()):
+    """Extent each mode must have for a write with this key (cur = current shape: an open-ended slice on an existing mode covers
+    exactly the current extent and never grows it; only in a new mode does it take the right-hand side's extent)."""
     need = []
     m = 0
-    for e in key:
+    for n, e in enumerate(key):
         if isinstance(e, slice):
             if e.stop is not None and e.stop >= 0:
                 need.append(e.stop)
+            elif n < len(cur):
+                need.append(cur[n])
             else:
                 need.append(rhs_shape[m] if (rhs_shape is not None and m < len(rhs_shape)) else 1)
             m += 1
@@ -226,7 +229,7 @@ def _rand_op(rng, shape, model):
         kk = [_key_elem(e) for e in key]
         rhs = "scalar" if rng.random() < 0.5 else "array"
         if rhs == "array":
-            need = _need(kk, None)
+            need = _need(kk, None, model.shape)
             m2 = Model(model.M)
             m2.grow(need)
             idx, keep = _resolve(kk, m2.shape)
@@ -293,7 +296,7 @@ def _apply_model(model, op):
         rshape = None
         if op["rhs"] == "array":
             rshape = np.asarray(op["v"]).shape
-        model.grow(_need(kk, rshape))
+        model.grow(_need(kk, rshape, model.shape))
         kk = kk + [0] * (model.M.ndim - len(kk))
         idx, keep = _resolve(kk, model.shape)
         if op["rhs"] == "scalar":
@@ -598,7 +601,7 @@ def _valid(op, model):
         if k == "set_region" and op["rhs"] == "array":
             kk = [_key_elem(e) for e in key]
             m2 = Model(model.M)
-            m2.grow(_need(kk, np.asarray(op["v"]).shape))
+            m2.grow(_need(kk, np.asarray(op["v"]).shape, model.shape))
             kk = kk + [0] * (m2.M.ndim - len(kk))
             idx, keep = _resolve(kk, m2.shape)
             if tuple(len(i) for i, kp in zip(idx, keep) if kp) != np.asarray(op["v"]).shape:
@@ -636,7 +639,7 @@ def run_case(case, ctx):
     if fail_at is None and probe.nviol == 0:
         _safe_exec(case, ctx)
         return
-    sig = (probe.violations[0]["op"], probe.violations[0]["symptom"]) if probe.violations else None
+    sig = _vsig(probe.violations[0]) if probe.violations else None
     ops = list(case["ops"][: (fail_at + 1) if fail_at is not None else len(case["ops"])])
     changed = True
     while changed and len(ops) > 1:
@@ -651,13 +654,19 @@ def run_case(case, ctx):
                 _safe_exec(trial, p2)
             except Exception:  # noqa: BLE001
                 continue
-            if p2.violations and (p2.violations[0]["op"], p2.violations[0]["symptom"]) == sig:
+            if p2.violations and _vsig(p2.violations[0]) == sig:
                 ops = trial["ops"]
                 changed = True
                 break
     shrunk = dict(case, ops=ops, shrunk_from=len(case["ops"]))
     ctx.begin(shrunk)
     _safe_exec(shrunk, ctx)
+
+
+def _vsig(v):
+    """Mechanism signature a shrunk history must keep (so that shrinking cannot drift into another defect)."""
+    f = v["features"]
+    return (v["op"], v["symptom"], f.get("holder"), f.get("opk"), bool(f.get("nlists") or 0), bool(f.get("has_neg")), bool(f.get("order_growth")), f.get("rhs"))
 
 
 def _safe_exec(case, ctx):
